@@ -1,4 +1,6 @@
 """C17 Export to and import from pyzx graphs preserve the ZX diagram."""
+from fractions import Fraction
+
 import numpy as np
 from hypothesis import strategies as st
 
@@ -122,6 +124,18 @@ def check_export(case):
     got = ref_matrix(c14.zx_spec_of(back))
     same(got, ref_matrix(without_scalars(spec)), "round-trip",
          "{} -> {}".format(common.show(d), common.show(back)))
+    # the exported graph is the caller's to edit (pyzx rewrites graphs in
+    # place): exporting an equal diagram afterwards gives a graph of its own
+    # with the diagram's matrix
+    graph.scalar.add_power(2)
+    for v in list(graph.vertices()):
+        if v not in graph.inputs and v not in graph.outputs:
+            graph.add_to_phase(v, Fraction(1, 2))
+            break
+    again = specs.build(spec).to_pyzx()
+    require(again is not graph, "C17:export-shares-a-graph", common.show(d))
+    same(pyzx_matrix(again), ref, "export-after-editing-an-earlier-export",
+         common.show(d))
     return dict(nt=has_hadamard(spec) and needs_moving(spec),
                 labels=["H" if has_hadamard(spec) else "noH",
                         "swap" if needs_moving(spec) else "noswap"],
